@@ -140,6 +140,49 @@ PROPS["C08"] = dict(
 )
 
 
+STORE_TRUST = ["overlay shims (build tag verif): harness/shims/storage/memory (dump under the shard locks, collectGarbage, populateProm), harness/shims/storage/redis, harness/shims/pkg/timecache (pinned clock)",
+               "Redis is miniredis (in-process); Redis command semantics (HSET/HDEL replies, MULTI/EXEC atomicity, empty hashes vanish) are modelled from the Redis documentation, not verified",
+               "Go map iteration order / HKEYS order = order of the association list; theorems quantify over all orders",
+               "Redis store: executable model tied by the same streams; the refinement/invariant theorems are proved for the memory store, the Redis model's theorems are in Props/C01R.lean"]
+
+STORE_RULE = ("cases: operation sequences (put seeder/leecher, graduate, delete, announce-peers, scrape, expiry with cutoffs at mtime-1/mtime/mtime+1 and far, clock "
+              "moves) over small universes (2-4 infohashes chosen to collide / not collide in shard index for n in {1,2,3,1024}; 3-17 peers incl. equal IDs on two "
+              "ports, equal endpoints with two IDs, IPv4 and IPv6) against the real memory store and the real Redis store on miniredis with 1-3 tracker instances "
+              "sharing it; the whole store state incl. counters is dumped and compared after the mutating steps; returned peer lists are judged by the proved "
+              "validSelection; non-trivial = joins, role changes, last-member departures, expiries, capped/self-excluding selections (model tags), distinct op lines")
+
+PROPS["C01"] = dict(
+    lean_targets=["Chihaya.Props.C01"],
+    props_files=["Chihaya/Props/C01.lean"],
+    streams=[dict(name="C01", quick=18000, thorough=600000)],
+    rule=STORE_RULE, trusted=STORE_TRUST, assumptions=["no storage failures (Redis errors are not injected)"],
+)
+PROPS["C02"] = dict(
+    lean_targets=["Chihaya.Props.C02"],
+    props_files=["Chihaya/Props/C02.lean"],
+    streams=[dict(name="C02", quick=24000, thorough=800000)],
+    rule=STORE_RULE + "; numwant in {0..8, 50, 2^31, random}, swarms up to 17 peers", trusted=STORE_TRUST, assumptions=[],
+)
+PROPS["C03"] = dict(
+    lean_targets=["Chihaya.Props.C03"],
+    props_files=["Chihaya/Props/C03.lean"],
+    streams=[dict(name="C03", quick=12000, thorough=400000), dict(name="C08", quick=2000, thorough=50000), dict(name="C09", quick=2000, thorough=50000)],
+    rule=STORE_RULE + "; plus the HTTP and UDP writer streams (peer entry widths per family)", trusted=STORE_TRUST, assumptions=[],
+)
+PROPS["C05"] = dict(
+    lean_targets=["Chihaya.Props.C05"],
+    props_files=["Chihaya/Props/C05.lean"],
+    streams=[dict(name="C05", quick=18000, thorough=600000)],
+    rule=STORE_RULE, trusted=STORE_TRUST, assumptions=["mtime is the cached clock (pinned by the harness); boundary mtime = cutoff follows the code (removed)"],
+)
+PROPS["C17"] = dict(
+    lean_targets=["Chihaya.Props.C17"],
+    props_files=["Chihaya/Props/C17.lean"],
+    streams=[dict(name="C17", quick=18000, thorough=600000)],
+    rule=STORE_RULE + "; the exported gauges are read after every mutating step", trusted=STORE_TRUST, assumptions=["no storage failures"],
+)
+
+
 def run_gen(name, repo, lean, work, goenv):
     """regenerate lean/Chihaya/Gen/<Name>.lean from the current source"""
     tr = os.path.join(work, "tr")
@@ -194,7 +237,7 @@ def context_of(stream, ops, i):
     return list(reversed(ctx))
 
 
-STATELESS = {"benc", "vi", "cfg", "appr", "http", "udp", "httpw"}
+STATELESS = {"benc", "vi", "cfg", "appr", "http", "udp", "httpw"}  # st.* (store) operations are stateful: context back to st.reset
 
 
 def oracle(pid, stream, op, impl, model):
